@@ -108,6 +108,7 @@ impl Exec {
         let db = Db::create("seq", p.cfg)?;
         let mut model = Model::new(&hz);
         model.vacuum_with_sessions = p.vacuum_with_sessions;
+        model.exact_updates = !matches!(p.property.as_str(), "C01" | "C02" | "C08");
         Ok(Exec { db, oom_tolerant: p.oom_tolerant, model, log: vec![], digest: vec![], counters: BTreeMap::new() })
     }
 
